@@ -25,11 +25,13 @@ func checkC17(c *core.Ctx, r *core.Report) {
 		"(4) ASSERT — in the PromQL front end and in the Elasticsearch query-DSL walker (pkg/es/query) every unchecked type assertion on an interface value is dominated by a successful comma-ok/type-switch test of the same value to the same type, is trivially true, or asserts a parameter that every static caller passes as a value of that static type or after its own successful type test; " +
 		"(7) ADMIT — in the admission loop a query taken from the waiting queue is registered in the running table by a synchronous call before canRunQuery() is evaluated again; " +
 		"(8) CLEANED — DataProcessor.Fetch hands input to its processor only where isCleanupCalled, read under processorLock, is known false; " +
+		"(9) TERMINAL — every state in whose arm the coordinator loop can return is a state in whose arm the multiplexer closes its output; " +
 		"(6) the SQL front end re-enters itself only with a text that a regexp replacement, guarded by a successful match of the same pattern on the same text, has rewritten (progress of the recursion); (5) TABLE — every QueryState constant sent on a state channel is a case of RunQueryForNewPipeline's state switch."
 	r.NotCovered = "parser termination and determinism, bounded answer time, goroutine leaks other than through the lifecycle pairing, admission-limit arithmetic, panics from other causes (index, nil)"
 	a := lockAnalysis(c)
 	c17Admission(c, r, newSummaries(c))
 	c17Cleaned(c, r, a)
+	c17TerminalStates(c, r)
 
 	// ---------------------------------------------------------------- (1)
 	startQ := c.Obj(pkgQuery, "StartQuery")
